@@ -1,7 +1,11 @@
 """C08 runner: executes ONE real nbdime entry point (nbmerge / git-nbmergedriver) in this fresh interpreter,
 with observation + fault-injection hooks installed from outside (nothing in /repo is edited).
 
-    /venv/bin/python c08_runner.py <spec.json>
+    /venv/bin/python c08_runner.py <spec.json>                       one run in this fresh interpreter
+    /venv/bin/python c08_runner.py --serve <specs.json> <results.json>   many runs: nbdime is imported once, then every
+        run is a fork()ed child process that installs its hooks, runs the entry point and ends through the interpreter's
+        own top level (no frame of this file catches anything), so its exit status is a real process status; the parent
+        only waitpid()s.  spec gains "cwd", "env", "stdout", "stderr" (files the child's fd 1 / 2 are redirected to).
 
 spec = {"entry": "nbmerge"|"driver", "argv": [...], "roles": {abs path: "base"|"local"|"remote"|"out"},
         "trace": <file the event lines are appended to with os.write, survives SIGKILL>,
@@ -22,14 +26,22 @@ here, so the exit status is CPython's own (uncaught exception -> 1, KeyboardInte
 This file imports nothing from the harness."""
 import sys, os, json, io, builtins, signal
 
-spec = json.load(open(sys.argv[1]))
-ROLES = {os.path.abspath(p): r for p, r in spec['roles'].items()}
-FAULT = spec.get('fault')
-_tfd = os.open(spec['trace'], os.O_WRONLY | os.O_APPEND | os.O_CREAT, 0o644)
+spec = None
+ROLES = {}
+FAULT = None
+_tfd = -1
 _count = [0]
 _real_open = builtins.open
 _real_remove = os.remove
 _real_unlink = os.unlink
+
+
+def setup(sp):
+    global spec, ROLES, FAULT, _tfd
+    spec = sp
+    ROLES = {os.path.abspath(p): r for p, r in spec['roles'].items()}
+    FAULT = spec.get('fault')
+    _tfd = os.open(spec['trace'], os.O_WRONLY | os.O_APPEND | os.O_CREAT, 0o644)
 
 
 def _fire(kind):
@@ -149,27 +161,62 @@ def fn_hook(mod, attr, name):
     setattr(mod, attr, wrapper)
 
 
-try:
-    import nbformat
-    import nbdime.merging.notebooks as MN
-    if spec['entry'] == 'driver':
-        import nbdime.vcs.git.mergedriver as ENTRY
+def install(entry_name):
+    try:
+        import nbformat
+        import nbdime.merging.notebooks as MN
+        if entry_name == 'driver':
+            import nbdime.vcs.git.mergedriver as ENTRY
+        else:
+            import nbdime.nbmergeapp as ENTRY
+        fn_hook(MN, 'diff_notebooks', 'diff')
+        fn_hook(MN, 'decide_merge_with_diff', 'decide')
+        fn_hook(MN, 'apply_decisions', 'apply')
+        fn_hook(nbformat, 'writes', 'serialise')
+        main = ENTRY.main
+    except Exception as e:   # the harness cannot observe this entry point any more
+        sys.stderr.write('C08-HOOK-FAILURE %s: %s\n' % (type(e).__name__, e))
+        sys.stderr.flush()
+        os._exit(97)
+    builtins.open = hooked_open
+    io.open = hooked_open
+    os.remove = hooked_remove
+    os.unlink = hooked_remove
+    os.write(_tfd, b'[0, "START", null]\n')
+    return main
+
+
+def serve(specs_file, results_file):
+    specs = json.load(_real_open(specs_file))
+    try:
+        import nbformat, nbdime.nbmergeapp, nbdime.vcs.git.mergedriver, nbdime.merging.notebooks   # warm the imports
+    except Exception as e:
+        sys.stderr.write('C08-HOOK-FAILURE %s: %s\n' % (type(e).__name__, e))
+        os._exit(97)
+    results = []
+    i = 0
+    while i < len(specs):
+        sp = specs[i]
+        i += 1
+        sys.stdout.flush(); sys.stderr.flush()
+        pid = os.fork()
+        if pid == 0:
+            # ---- child: from here on nothing is caught; the process ends the way CPython ends it
+            os.chdir(sp['cwd'])
+            os.environ.clear(); os.environ.update(sp['env'])
+            fo = os.open(sp['stdout'], os.O_WRONLY | os.O_CREAT | os.O_TRUNC, 0o644); os.dup2(fo, 1); os.close(fo)
+            fe = os.open(sp['stderr'], os.O_WRONLY | os.O_CREAT | os.O_TRUNC, 0o644); os.dup2(fe, 2); os.close(fe)
+            setup(sp)
+            sys.exit(install(sp['entry'])(sp['argv']))
+        _, st = os.waitpid(pid, 0)
+        results.append(-os.WTERMSIG(st) if os.WIFSIGNALED(st) else os.WEXITSTATUS(st))
+    json.dump(results, _real_open(results_file, 'w'))
+
+
+if __name__ == '__main__':
+    if sys.argv[1] == '--serve':
+        serve(sys.argv[2], sys.argv[3])
     else:
-        import nbdime.nbmergeapp as ENTRY
-    fn_hook(MN, 'diff_notebooks', 'diff')
-    fn_hook(MN, 'decide_merge_with_diff', 'decide')
-    fn_hook(MN, 'apply_decisions', 'apply')
-    fn_hook(nbformat, 'writes', 'serialise')
-    main = ENTRY.main
-except Exception as e:   # the harness cannot observe this entry point any more
-    sys.stderr.write('C08-HOOK-FAILURE %s: %s\n' % (type(e).__name__, e))
-    os._exit(97)
-
-builtins.open = hooked_open
-io.open = hooked_open
-os.remove = hooked_remove
-os.unlink = hooked_remove
-os.write(_tfd, b'[0, "START", null]\n')
-
-# the console-script shim:  sys.exit(main())
-sys.exit(main(spec['argv']))
+        setup(json.load(open(sys.argv[1])))
+        # the console-script shim:  sys.exit(main())
+        sys.exit(install(spec['entry'])(spec['argv']))
